@@ -48,7 +48,7 @@ ASSUMPTIONS = [
     "per input); a timeout is reported as a violation of the value clause and ends the AtomBase comparisons of "
     "the run",
     "integer literals of any length denote the float nearest to them (AtomBase builds float(text)); AtomBase "
-    "results are compared by value AND numeric kind (bool / int / float / complex, np.float64 = float)",
+    "results are compared by value AND numeric kind class (integral = bool or int / float / complex, np.float64 = float; bool and int are one class because the neg-neg law turns -(-True) = 1 into True)",
     "strings in no class of the property (recogniser class 'other': '()', adjacent operands, stray characters, "
     "exotic float spellings) get no verdict AND an impl/model difference on them is only counted "
     "(other.impl_ne_model), it cannot fail the check; the float-literal recogniser is judged on candidates over "
@@ -173,9 +173,12 @@ def judge_text(ctx, text, cls, ast_eval, model, opname, where):
             # only up to value (-(-False) is the int 0) and numpy picks float16 for np.log10(True) but a wider
             # type next to an int, so the un-normalised term may differ at float16 precision: counted, no verdict
             via_spec = L.float_outcome(lambda: L.eval_float(L.norm(ast_eval)))
-            if via_spec != L.float_outcome(lambda: L.eval_float(ast_eval)):
+            via_raw = L.float_outcome(lambda: L.eval_float(ast_eval))
+            if via_spec != via_raw:
                 ctx.count("atombase.negneg_bool_dtype_artefact")
-            if stock != via_spec:
+            # where the two readings of the specification term differ (signs in front of a comparison: numpy
+            # refuses -np.bool_, Python turns -(-True) into the int 1) either reading is the documented value
+            if stock != via_spec and stock != via_raw:
                 ctx.violation("wf-value-atombase",
                               "AtomBase on %r gives %s, the documented order evaluated in floats gives %s" %
                               (text, stock, via_spec),
